@@ -41,6 +41,8 @@ impl LocalKey {
         let (ek, n2) = aead_key
             .split_last_chunk::<16>()
             .ok_or(PasetoError::CryptoError)?;
+        #[cfg(paseto_verif)]
+        let n2 = &paseto_core::verif::counter_override(*n2);
         let ak = kdf(&self.0, "paseto-auth-key-for-aead", nonce)?;
 
         let key = UnboundCipherKey::new(&AES_256, ek).map_err(|_| PasetoError::CryptoError)?;
